@@ -81,6 +81,10 @@ pub struct Data {
 
     /// Order key for plan node.
     pub orderby: order::OrderKey,
+
+    /// Data type of the expression (unknown for plans whose type is not derivable).
+    /// Rewrites that would replace an expression by one of another type consult it.
+    pub type_: type_::Type,
 }
 
 impl Analysis<Expr> for ExprAnalysis {
@@ -99,6 +103,12 @@ impl Analysis<Expr> for ExprAnalysis {
             ),
             rows: rows::analyze_rows(egraph, enode),
             orderby: order::analyze_order(egraph, enode),
+            type_: type_::analyze_type(
+                enode,
+                |i| egraph[*i].data.type_.clone(),
+                |id| egraph[*id].nodes[0].clone(),
+                &egraph.analysis.catalog,
+            ),
         }
     }
 
@@ -134,7 +144,22 @@ impl Analysis<Expr> for ExprAnalysis {
             }
             did
         };
-        merge_const | merge_range | merge_columns | merge_schema | merge_rows | merge_order
+        // a known type is kept
+        let merge_type = match (&to.type_, &from.type_) {
+            (Err(_), Ok(_)) => {
+                to.type_ = from.type_;
+                DidMerge(true, false)
+            }
+            (Ok(_), Err(_)) => DidMerge(false, true),
+            _ => DidMerge(false, false),
+        };
+        merge_const
+            | merge_range
+            | merge_columns
+            | merge_schema
+            | merge_rows
+            | merge_order
+            | merge_type
     }
 
     /// Modify the graph after analyzing a node.
